@@ -3505,7 +3505,7 @@ class __implementations__:
             length, remainder = builtins.divmod(arg.size, numpy.prod(newshape, initial=-1))
             if remainder:
                 raise ValueError(f'cannot reshape array of size {arg.size} into shape {newshape}')
-            newshape = (*newshape[:i], length, *newshape[i+1:])
+            newshape = (*newshape[:i], int(length), *newshape[i+1:])
         elif numpy.prod(newshape, initial=1) != arg.size:
             raise ValueError(f'cannot reshape array of size {arg.size} into shape {newshape}')
         ncommon = 0
